@@ -463,7 +463,7 @@ def uq_variants(rng, q):
 
 def oracle_rpy(ctx):
     rng = ctx.rng
-    nr = ctx.n(300, 6000)
+    nr = ctx.n(300, 3500)
     reps = ctx.n(4, 10)
     for order, alias in ORDERS.items():
         for p, (s, o) in angle_grid(rng, [PI / 2, -PI / 2], nr):
@@ -517,7 +517,7 @@ def oracle_rpy(ctx):
 
 def oracle_eul(ctx):
     rng = ctx.rng
-    nr = ctx.n(300, 6000)
+    nr = ctx.n(300, 4000)
     reps = ctx.n(3, 8)
     offs = OFFSETS + [s * 10.0 ** -k for k in (13, 14, 15, 16) for s in (1, -1)] + [2.2e-15, 2.3e-15, 3e-15]
     sing = [0.0, PI, -PI]
@@ -566,10 +566,10 @@ def oracle_eul(ctx):
 
 def oracle_angvec(ctx):
     rng = ctx.rng
-    nr = ctx.n(1000, 20000)
+    nr = ctx.n(1000, 10000)
     reps = ctx.n(4, 10)
     offs = OFFSETS + [s * 10.0 ** -k for k in (13, 14, 15, 16) for s in (1, -1)] + [3e-8, 5e-8, 2e-7, 3e-4, 3e-6, 3e-5, 1.5e-7, 3e-15, 5e-15, 2.1e-14, 2.3e-14]
-    grid = [(s + o, (s, o)) for s in (0.0, PI) for o in offs] + [(10 ** float(rng.uniform(-12, 0.497)), (None, None)) for _ in range(ctx.n(300, 5000))] + [(PI - 10 ** float(rng.uniform(-16, -1)), (None, None)) for _ in range(ctx.n(300, 5000))] + [(float(rng.uniform(-PI, PI)), (None, None)) for _ in range(nr)]
+    grid = [(s + o, (s, o)) for s in (0.0, PI) for o in offs] + [(10 ** float(rng.uniform(-12, 0.497)), (None, None)) for _ in range(ctx.n(300, 2500))] + [(PI - 10 ** float(rng.uniform(-16, -1)), (None, None)) for _ in range(ctx.n(300, 2500))] + [(float(rng.uniform(-PI, PI)), (None, None)) for _ in range(nr)]
     for th, (s, o) in grid:
         for _ in range(reps):
             v = rand_unit(rng) if rng.random() < 0.8 else np.eye(3)[rng.integers(3)] * rng.choice([-1.0, 1.0])
